@@ -84,7 +84,30 @@ class FwdSet(Fwd):
         return self.__class__(self.props.set("inner", inner))
 
 
+class Int(Fwd):
+    """The same forwarder under a class name that reads like a built-in's (a user's `Int`, `Date`,
+    `Str` wrapper): how a type is dispatched may not depend on what its class is called."""
+
+
+class _FwdDraft(Fwd):
+    """First version of a type, registered and then REPLACED by registering the revised class
+    under the same name: validates nothing, generates None."""
+
+    def __validate__(self, visitor: Any, *, value: Any = Nil, path: Any = Nil, **kwargs: Any) -> Any:
+        return visitor.make_validation_result()
+
+    def __generate__(self, visitor: Any, **kwargs: Any) -> Any:
+        return None
+
+
+class FwdRevised(Fwd):
+    pass
+
+
 _registered = register_type("mc_fwd", Fwd)
+register_type("mc_fwdnamed", Int)
+register_type("mc_fwdrev", _FwdDraft)
+register_type("mc_fwdrev", FwdRevised)       # the later registration wins
 register_type("mc_fwdset", FwdSet)
 register_type("mc_fwdkw", FwdKw)
 register_type("mc_fwdattr", FwdAttr)
@@ -98,6 +121,10 @@ def wrap(inner, flavour=None):
         return out
     if flavour == "set":
         return schema.mc_fwdset(inner)
+    if flavour == "named":
+        return schema.mc_fwdnamed(inner)
+    if flavour == "rereg":
+        return schema.mc_fwdrev(inner)
     return schema.mc_fwdkw(inner) if flavour == "kw" else schema.mc_fwd(inner)
 
 
